@@ -1826,6 +1826,10 @@ class VariableNode(AstNode):
             raise RuntimeError("Arguments given to variable:", ast.gen_decl())
         self.ast = ast
         self.name = ast.name
+        if not isinstance(ast.name, str):
+            raise RuntimeError(
+                "Variable must have a name: '{}' at line {}".format(
+                    decl, self.linenumber))
 
         # format for struct
         fmt_var = self.fmtdict
